@@ -35,6 +35,11 @@ type dcfg struct {
 	// zero: build the DistributedConfig with every optional field left at its zero value
 	// (Mode "", EpochPeriod 0, EpochGrace 0) - the documented defaults must behave like the explicit ones
 	zero bool
+	// prefill: the exploration starts from a NON-INITIAL state: this many filler subscribers (f00, f01, ...)
+	// are allocated by script before the first explored operation (reaches e.g. the 64-bit word boundary of
+	// the bitmap, which BFS from the empty pool cannot reach); releasable names the fillers offered to Release.
+	prefill    int
+	releasable []int
 }
 
 type dsys struct {
@@ -50,6 +55,7 @@ type dsys struct {
 	// acked: allocations the node confirmed to its caller (Allocate returned the address after a
 	// successful store write) and that nobody released/overwrote since. They must survive any stop.
 	acked  map[string]string
+	fill   []string // filler subscribers allocated by the scripted prefix
 	lastOp string
 	viols  []explore.Viol
 }
@@ -88,7 +94,25 @@ func newDsys(c dcfg) *dsys {
 	if err := s.boot(); err != nil {
 		panic(err)
 	}
+	for i := 0; i < c.prefill; i++ {
+		f := fmt.Sprintf("f%02d", i)
+		p, err := s.da.Allocate(context.Background(), f)
+		if err != nil {
+			panic(fmt.Sprintf("scripted prefix: Allocate(%s): %v", f, err))
+		}
+		s.fill = append(s.fill, f)
+		s.acked[f] = p.String()
+	}
 	return s
+}
+
+// everyone: the explored subscribers plus the fillers of the scripted prefix.
+func (s *dsys) everyone() []string {
+	out := make([]string, 0, s.c.subs+len(s.fill))
+	for i := 0; i < s.c.subs; i++ {
+		out = append(out, subName(i))
+	}
+	return append(out, s.fill...)
 }
 
 // boot builds a NEW allocator on the current store and starts it.
@@ -146,8 +170,8 @@ func (s *dsys) mem(sub string) string {
 
 func (s *dsys) memAll() map[string]string {
 	m := map[string]string{}
-	for i := 0; i < s.c.subs; i++ {
-		m[subName(i)] = s.mem(subName(i))
+	for _, sub := range s.everyone() {
+		m[sub] = s.mem(sub)
 	}
 	return m
 }
@@ -167,8 +191,8 @@ func (s *dsys) freeAddrs() []string {
 	for _, a := range s.memAll() {
 		used[a] = true
 	}
-	for i := 0; i < s.c.subs; i++ {
-		if p, _, ok := s.st.record(recKey(subName(i))); ok {
+	for _, sub := range s.everyone() {
+		if p, _, ok := s.st.record(recKey(sub)); ok {
 			used[p] = true
 		}
 	}
@@ -197,6 +221,10 @@ func (s *dsys) lease() bool { return s.c.mode == allocator.PoolModeLease }
 func (s *dsys) Ops() []string {
 	var ops []string
 	restartOps := func() {
+		if s.st.nRecords() > 4 { // too many records for every permutation: sorted and reversed order
+			ops = append(ops, "Restart(0)", "Restart(-1)")
+			return
+		}
 		n := factorial(s.st.nRecords())
 		for p := 0; p < n; p++ {
 			ops = append(ops, fmt.Sprintf("Restart(%d)", p))
@@ -207,6 +235,11 @@ func (s *dsys) Ops() []string {
 		return ops
 	}
 	canCrash := s.restarts < s.c.maxRestarts
+	for _, k := range s.c.releasable {
+		if k < len(s.fill) {
+			ops = append(ops, "Release("+s.fill[k]+")")
+		}
+	}
 	for i := 0; i < s.c.subs; i++ {
 		sub := subName(i)
 		ops = append(ops, "Allocate("+sub+")", "Release("+sub+")")
@@ -420,10 +453,10 @@ func (s *dsys) Apply(op string) (obs string) {
 		old.mu.Unlock()
 		s.st = newFstore(old.snapshot(), p)
 		// R1 (durability): whatever the stop interrupted, a confirmed allocation is still recorded
-		for i := 0; i < s.c.subs; i++ {
-			if a, ok := s.acked[subName(i)]; ok {
-				if rec, _, present := s.st.record(recKey(subName(i))); !present || rec != a {
-					s.v("R1-durable", opSiteOf(prevOp), "%s=%s was confirmed to the caller and never released, but after the stop following [%s] the surviving store records %q (present=%v)", subName(i), a, prevOp, rec, present)
+		for _, sub := range s.everyone() {
+			if a, ok := s.acked[sub]; ok {
+				if rec, _, present := s.st.record(recKey(sub)); !present || rec != a {
+					s.v("R1-durable", opSiteOf(prevOp), "%s=%s was confirmed to the caller and never released, but after the stop following [%s] the surviving store records %q (present=%v)", sub, a, prevOp, rec, present)
 				}
 			}
 		}
@@ -511,10 +544,10 @@ func (s *dsys) checkRestart(perm int) {
 	m := s.memAll()
 	recs := map[string]string{}
 	var keys []string
-	for i := 0; i < s.c.subs; i++ {
-		if p, _, ok := s.st.record(recKey(subName(i))); ok {
-			recs[subName(i)] = p
-			keys = append(keys, subName(i))
+	for _, sub := range s.everyone() {
+		if p, _, ok := s.st.record(recKey(sub)); ok {
+			recs[sub] = p
+			keys = append(keys, sub)
 		}
 	}
 	// "positional": the memory is exactly what re-allocating first-free in Query order
@@ -615,13 +648,16 @@ func distModels(thorough bool) []*explore.Model {
 		q = b{6, 0, 2, 2, 3}
 	}
 	cfgs := []dcfg{
-		{"session/30", allocator.PoolModeSession, "10.0.0.0/30", 3, q.faults, q.restarts, q.remote, false},
-		{"lease/29", allocator.PoolModeLease, "10.0.0.0/29", 3, q.faults, q.restarts, q.remote, false},
-		{"lease/30", allocator.PoolModeLease, "10.0.0.0/30", 3, q.faults, q.restarts, q.remote, false},
+		{"session/30", allocator.PoolModeSession, "10.0.0.0/30", 3, q.faults, q.restarts, q.remote, false, 0, nil},
+		{"lease/29", allocator.PoolModeLease, "10.0.0.0/29", 3, q.faults, q.restarts, q.remote, false, 0, nil},
+		{"lease/30", allocator.PoolModeLease, "10.0.0.0/30", 3, q.faults, q.restarts, q.remote, false, 0, nil},
 		// Mode left unset: "session" by default (NewDistributedAllocator's default arm, every `mode == PoolModeLease` test)
-		{"mode-unset/30", allocator.PoolMode(""), "10.0.0.0/30", 3, q.faults, q.restarts, q.remote, true},
+		{"mode-unset/30", allocator.PoolMode(""), "10.0.0.0/30", 3, q.faults, q.restarts, q.remote, true, 0, nil},
 		// lease mode with EpochPeriod/EpochGrace left unset (1h / 1 epoch by default)
-		{"lease-defaults/29", allocator.PoolModeLease, "10.0.0.0/29", 2, q.faults, q.restarts, q.remote, true},
+		{"lease-defaults/29", allocator.PoolModeLease, "10.0.0.0/29", 2, q.faults, q.restarts, q.remote, true, 0, nil},
+		// non-initial start state: indexes 0..64 of a 128-unit pool are taken (first bitmap word full, first bit of
+		// the second word taken); release/allocate histories around the word boundary
+		{"session-prefilled65/25", allocator.PoolModeSession, "10.0.0.0/25", 2, 0, 1, 0, false, 65, []int{3, 62, 64}},
 	}
 	var ms []*explore.Model
 	for _, c := range cfgs {
